@@ -152,9 +152,19 @@ func (p *Packer) Pack(src string, w io.Writer) (*Meta, error) {
 
 	// Check if the root (src) is a symlink
 	if info.Mode()&os.ModeSymlink != 0 {
-		src, err = os.Readlink(src)
-		if err != nil {
-			return nil, err
+		// Resolve the link the way the operating system does: a relative
+		// target is relative to the directory containing the link (not to
+		// the working directory), and the target may be another link.
+		if resolved, evalErr := filepath.EvalSymlinks(src); evalErr == nil {
+			src = resolved
+		} else {
+			// Historical behavior, kept for compatibility: a link that
+			// does not resolve on its own has its target interpreted
+			// relative to the working directory.
+			src, err = os.Readlink(src)
+			if err != nil {
+				return nil, err
+			}
 		}
 	}
 
